@@ -1,6 +1,9 @@
 //! C08 — `ConcurrentDial` / `SmartDial` (hook `verif_c08`) with controllable dial futures vs the
 //! Lean model `C08`.
-//! ops:  `new c <n> <k>` | `new s <n>` | `complete <i>:<ok|err>[,…]` | `poll`
+//! ops:  `new c <n> <k>` | `new s <addr-list>` | `complete <i>:<ok|err>[,…]` | `adv <ms>` | `poll`
+//! The monotonic clock is FROZEN (`crate::clock`) and moves only by `adv`; after each `adv` the harness
+//! waits until futures-timer has processed the new time, so a `Delay` is ready exactly iff its deadline
+//! has been reached. `SmartDial` wrappers therefore start their dial at a deterministic poll.
 //! impl: `S:<started> F:<in flight> M:<max in flight so far> R:<pending | ok:<i>:<errs> | err:<errs>>`
 //! A dial is *started* at the first poll of its future and *in flight* until its future returned Ready.
 use futures::future::BoxFuture;
@@ -102,11 +105,13 @@ struct Sut {
     addrs: Vec<Multiaddr>, // index 0 unused
     result: Option<Outcome>,
     flag: Arc<Flag>,
+    smart: bool,
+    timer_stuck: bool,
 }
 
 impl Sut {
     fn empty() -> Sut {
-        Sut { dial: None, sh: Default::default(), addrs: vec![], result: None, flag: Arc::new(Flag(AtomicBool::new(false))) }
+        Sut { dial: None, sh: Default::default(), addrs: vec![], result: None, flag: Arc::new(Flag(AtomicBool::new(false))), smart: false, timer_stuck: false }
     }
     fn build(&mut self, addrs: Vec<Multiaddr>) -> Vec<(Multiaddr, BoxFuture<'static, <TestDial as Future>::Output>)> {
         let n = addrs.len();
@@ -161,12 +166,13 @@ impl Sut {
             Some(Err(errs)) => format!("err:{}", hcore::list(&errs.iter().map(|a| self.idx(a)).collect::<Vec<_>>())),
         };
         format!(
-            "S:{} F:{} M:{} R:{}{}",
+            "S:{} F:{} M:{} R:{}{}{}",
             hcore::list(&started),
             hcore::list(&sh.in_flight()),
             sh.max_in_flight,
             r,
-            if again { " polled-after-ready" } else { "" }
+            if again { " polled-after-ready" } else { "" },
+            if self.timer_stuck { " timer-stuck" } else { "" }
         )
     }
 }
@@ -214,10 +220,16 @@ fn smart_addr(j: usize, rng_pick: u64) -> Multiaddr {
     a
 }
 
-fn exec(out: &mut Out, sut: &mut Sut, op: &[String], seed: u64) {
+fn exec(out: &mut Out, sut: &mut Sut, op: &[String], _seed: u64) {
     out.op(&op.join(" "));
     let r = hcore::guarded(|| {
         match op[0].as_str() {
+            "new" if op[1] == "s" => {
+                let addrs = crate::util::parse_list_tok(&op[2]);
+                let dials = sut.build(addrs);
+                sut.smart = true;
+                sut.dial = Some(verif_c08::smart(dials));
+            }
             "new" => {
                 let n: usize = op[2].parse().unwrap();
                 if op[1] == "c" {
@@ -226,26 +238,14 @@ fn exec(out: &mut Out, sut: &mut Sut, op: &[String], seed: u64) {
                     let dials = sut.build(addrs);
                     sut.dial = Some(verif_c08::concurrent(dials, NonZeroU8::new(k).unwrap()));
                 } else {
-                    let mut r = Rng::for_case(seed, n as u64);
-                    let addrs = (1..=n).map(|i| smart_addr(i, r.next_u64())).collect();
-                    let dials = sut.build(addrs);
-                    sut.dial = Some(verif_c08::smart(dials));
-                    // first poll creates the timers; then let every delay elapse and wait until all
-                    // wrappers have started their dial (bounded real-time wait, normally a few ms)
-                    sut.drive();
-                    hcore::warp(Duration::from_secs(10));
-                    for _ in 0..2000 {
-                        let all = {
-                            let sh = sut.sh.lock().unwrap();
-                            (1..sh.cells.len()).all(|i| sh.cells[i].polled)
-                        };
-                        if all || sut.result.is_some() {
-                            break;
-                        }
-                        drop(futures_timer::Delay::new(Duration::from_millis(0))); // kick the timer thread
-                        std::thread::sleep(Duration::from_millis(2));
-                        sut.drive();
-                    }
+                    unreachable!()
+                }
+            }
+            "adv" => {
+                let ms: u64 = op[1].parse().unwrap();
+                hcore::warp(Duration::from_millis(ms));
+                if !crate::util::settle_timers() {
+                    sut.timer_stuck = true;
                 }
             }
             "complete" => {
@@ -255,7 +255,12 @@ fn exec(out: &mut Out, sut: &mut Sut, op: &[String], seed: u64) {
                     let ok = it.next().unwrap() == "ok";
                     let w = {
                         let mut sh = sut.sh.lock().unwrap();
-                        if sut.result.is_some() || i == 0 || i >= sh.cells.len() || sh.cells[i].outcome.is_some() {
+                        if sut.result.is_some()
+                            || i == 0
+                            || i >= sh.cells.len()
+                            || sh.cells[i].outcome.is_some()
+                            || (sut.smart && !sh.cells[i].polled)
+                        {
                             None
                         } else {
                             sh.cells[i].outcome = Some(ok);
@@ -283,7 +288,7 @@ fn gen_case(out: &mut Out, idx: u64, class: &str, smart: bool, n: usize, k: usiz
     let mut sut = Sut::empty();
     let s = |x: &str| x.to_string();
     if smart {
-        exec(out, &mut sut, &[s("new"), s("s"), n.to_string()], seed);
+        unreachable!("smart cases are generated by gen_smart");
     } else {
         exec(out, &mut sut, &[s("new"), s("c"), n.to_string(), k.to_string()], seed);
     }
@@ -333,6 +338,156 @@ fn gen_case(out: &mut Out, idx: u64, class: &str, smart: bool, n: usize, k: usiz
     out.end();
 }
 
+fn smart_addrs(n: usize, rng: &mut Rng) -> Vec<Multiaddr> {
+    (1..=n).map(|i| smart_addr(i, rng.next_u64())).collect()
+}
+
+/// ranked delays (ms) per dial number, from the real `rank_dials` — used only to aim the clock
+/// advances of the generator at the interesting moments
+fn delays_of(addrs: &[Multiaddr]) -> Vec<u64> {
+    let ranked = libp2p_swarm::verif_c09::rank(addrs.to_vec());
+    addrs.iter().map(|a| ranked.iter().find(|(_, x)| x == a).map(|(d, _)| d.as_millis() as u64).unwrap_or(0)).collect()
+}
+
+fn started_open(sut: &Sut, open: &[usize]) -> Vec<usize> {
+    let sh = sut.sh.lock().unwrap();
+    open.iter().copied().filter(|i| sh.cells[*i].polled).collect()
+}
+
+/// walk the clock through every delay boundary (d-1 ms, d), with a completion policy
+fn smart_scenario(out: &mut Out, idx: &mut u64, addrs: &[Multiaddr], pre_adv: u64, policy: u8, seed: u64) {
+    let s = |x: &str| x.to_string();
+    out.case(*idx, &format!("smart-walk nt={}", (addrs.len() >= 2) as u8));
+    *idx += 1;
+    let mut sut = Sut::empty();
+    exec(out, &mut sut, &[s("new"), s("s"), hcore::maddr_list_tok(addrs)], seed);
+    if pre_adv > 0 {
+        exec(out, &mut sut, &[s("adv"), pre_adv.to_string()], seed);
+    }
+    let mut ds = delays_of(addrs);
+    ds.sort();
+    ds.dedup();
+    let mut open: Vec<usize> = (1..=addrs.len()).collect();
+    let mut t = 0u64; // time since the first poll
+    let react = |out: &mut Out, sut: &mut Sut, open: &mut Vec<usize>, first: bool| {
+        exec(out, sut, &[s("poll")], seed);
+        let st = started_open(sut, open);
+        match policy {
+            // 1: everything fails as soon as it is started; 2: the first started dial succeeds;
+            // 3: the first started dial fails, the second succeeds
+            1 => {
+                if !st.is_empty() {
+                    let parts: Vec<String> = st.iter().map(|i| format!("{i}:err")).collect();
+                    open.retain(|x| !st.contains(x));
+                    exec(out, sut, &[s("complete"), parts.join(",")], seed);
+                    exec(out, sut, &[s("poll")], seed);
+                }
+            }
+            2 if first => {
+                if let Some(i) = st.first() {
+                    open.retain(|x| x != i);
+                    exec(out, sut, &[s("complete"), format!("{i}:ok")], seed);
+                    exec(out, sut, &[s("poll")], seed);
+                }
+            }
+            3 => {
+                if let Some(i) = st.first() {
+                    let ok = open.len() < addrs.len();
+                    open.retain(|x| x != i);
+                    exec(out, sut, &[s("complete"), format!("{i}:{}", if ok { "ok" } else { "err" })], seed);
+                    exec(out, sut, &[s("poll")], seed);
+                }
+            }
+            _ => {}
+        }
+    };
+    react(out, &mut sut, &mut open, true);
+    for d in ds {
+        if d == 0 {
+            continue;
+        }
+        if d - 1 > t {
+            exec(out, &mut sut, &[s("adv"), (d - 1 - t).to_string()], seed);
+            t = d - 1;
+            react(out, &mut sut, &mut open, false);
+        }
+        exec(out, &mut sut, &[s("adv"), (d - t).to_string()], seed);
+        t = d;
+        react(out, &mut sut, &mut open, false);
+    }
+    exec(out, &mut sut, &[s("adv"), s("5000")], seed);
+    exec(out, &mut sut, &[s("poll")], seed);
+    out.end();
+}
+
+fn gen_smart(out: &mut Out, idx: u64, rng: &mut Rng, seed: u64) {
+    let s = |x: &str| x.to_string();
+    let n = if rng.chance(1, 10) { rng.usize(13) } else { rng.usize(7) };
+    let addrs = smart_addrs(n, rng);
+    out.case(idx, &format!("smart nt={}", (n >= 2) as u8));
+    let mut sut = Sut::empty();
+    exec(out, &mut sut, &[s("new"), s("s"), hcore::maddr_list_tok(&addrs)], seed);
+    let mut ds = delays_of(&addrs);
+    ds.sort();
+    ds.dedup();
+    let mut open: Vec<usize> = (1..=n).collect();
+    let p_ok = *rng.pick(&[0u64, 0, 1, 3]);
+    let mut now = 0u64;
+    let mut t0: Option<u64> = None;
+    let steps = 3 + rng.usize(3 * n + 6);
+    for _ in 0..steps {
+        if sut.result.is_some() {
+            // a few more ops after the result: nothing may start any more
+            if rng.chance(1, 2) {
+                exec(out, &mut sut, &[s("adv"), s("4000")], seed);
+                exec(out, &mut sut, &[s("poll")], seed);
+            }
+            break;
+        }
+        match rng.below(10) {
+            0..=3 => {
+                if t0.is_none() {
+                    t0 = Some(now);
+                }
+                exec(out, &mut sut, &[s("poll")], seed);
+            }
+            4..=6 => {
+                let base = t0.unwrap_or(now);
+                let next = ds.iter().map(|d| base + d).find(|x| *x > now);
+                let d = match (next, rng.below(5)) {
+                    (Some(x), 0) if x - now > 1 => x - now - 1,
+                    (Some(x), 1) | (Some(x), 2) => x - now,
+                    (_, 3) => 1,
+                    _ => *rng.pick(&[1u64, 29, 30, 100, 250, 1000]),
+                };
+                now += d;
+                exec(out, &mut sut, &[s("adv"), d.to_string()], seed);
+            }
+            _ => {
+                let st = started_open(&sut, &open);
+                if st.is_empty() {
+                    continue;
+                }
+                let cnt = 1 + rng.usize(2.min(st.len()));
+                let mut parts = vec![];
+                for _ in 0..cnt {
+                    let i = *rng.pick(&st);
+                    if !open.contains(&i) {
+                        continue;
+                    }
+                    open.retain(|x| *x != i);
+                    parts.push(format!("{}:{}", i, if rng.chance(p_ok, 10) { "ok" } else { "err" }));
+                }
+                if !parts.is_empty() {
+                    exec(out, &mut sut, &[s("complete"), parts.join(",")], seed);
+                }
+            }
+        }
+    }
+    exec(out, &mut sut, &[s("poll")], seed);
+    out.end();
+}
+
 /// exhaustive: every outcome vector and every completion order (one completion + poll at a time)
 fn exhaustive(out: &mut Out, idx: &mut u64, n: usize, k: usize, seed: u64) {
     fn perms(v: &mut Vec<usize>, i: usize, acc: &mut Vec<Vec<usize>>) {
@@ -370,6 +525,7 @@ fn exhaustive(out: &mut Out, idx: &mut u64, n: usize, k: usize, seed: u64) {
 }
 
 pub fn run(args: &Args, out: &mut Out) {
+    crate::clock::freeze();
     if let Some(cases) = args.replay_cases() {
         for (i, (_, ops)) in cases.iter().enumerate() {
             out.case(i as u64, "replay nt=1");
@@ -388,10 +544,27 @@ pub fn run(args: &Args, out: &mut Out) {
             exhaustive(out, &mut idx, n, k, args.seed);
         }
     }
+    // SmartDial: walk through every delay boundary of mixed-rank address lists
+    {
+        let mut rng = Rng::for_case(args.seed, 0x5A17);
+        let lists = if args.thorough && args.count == 0 { 120 } else { 24 };
+        for li in 0..lists {
+            let n = 1 + (li % 6);
+            let addrs = smart_addrs(n, &mut rng);
+            for policy in 0..4u8 {
+                smart_scenario(out, &mut idx, &addrs, if li % 3 == 0 { 7 } else { 0 }, policy, args.seed);
+            }
+        }
+    }
     let n_cases = args.n(2500, 60_000);
     for i in 0..n_cases {
         let mut rng = Rng::for_case(args.seed, i);
-        let smart = rng.chance(1, 12);
+        let smart = rng.chance(1, 4);
+        if smart {
+            gen_smart(out, idx, &mut rng, args.seed);
+            idx += 1;
+            continue;
+        }
         let n = if rng.chance(1, 10) { rng.usize(21) } else { rng.usize(11) };
         let k = if rng.chance(1, 10) { 1 + rng.usize(255) } else { 1 + rng.usize(8) };
         gen_case(out, idx, if smart { "smart" } else { "random" }, smart, n, k, &mut rng, args.seed);
